@@ -303,6 +303,9 @@ func (w *World) build(i int, in Inst) *Built {
 					en := rec.Attempt(i, "OnRetryScheduled", e.ExecutionAttempt)
 					en.HasDelay, en.Delay = true, e.Delay
 					rec.add(en)
+					if in.CancelInScheduled && w.CancelCurrent != nil {
+						w.CancelCurrent()
+					}
 				})
 		}
 		b.Pol = rb.Build()
